@@ -10,7 +10,7 @@ Each command (start / send e) yields one observation dict:
   C sorted active ids | S status | T ordered log | H recorded history | E error kind | X #logged errors
 """
 from __future__ import annotations
-import asyncio, copy, heapq, json, logging, selectors, signal, sys, os
+import asyncio, copy, heapq, json, logging, selectors, signal, sys, os, time
 
 logging.disable(logging.WARNING)          # ERROR records reach the counting handler below, nothing is printed
 
@@ -37,6 +37,9 @@ def _alarm(*_a):
     raise Hang()
 
 
+_THREAD_BASE = [0, 0.0]
+
+
 def _cap_threads():
     """a library that spins may start a timer / delayed-send thread per iteration (REAL threads in the generic runners):
     past 1,500 live threads the run is the hang it would be reported as anyway, and must not take the machine with it"""
@@ -46,7 +49,11 @@ def _cap_threads():
     orig = threading.Thread.start
 
     def start(self, *a, **k):
-        if threading.active_count() > 1500:
+        # (relative to the threads that were alive when this run began: sleeping timer threads of EARLIER cases of the
+        #  same worker process - hour-long delayed sends - must not count against this one)
+        n = threading.active_count()
+        fresh = time.time() - _THREAD_BASE[1] < 120        # a baseline taken by the run in progress (runners that take none: absolute cap)
+        if (n - _THREAD_BASE[0] > 1500) if fresh else (n > 8000):
             _HUNG[0] = True
             raise Hang()
         return orig(self, *a, **k)
@@ -449,6 +456,8 @@ def run_guarded(flavor, case, timeout=10):
 
 
 def _run_guarded(flavor, case, timeout=10):
+    import threading
+    _THREAD_BASE[0], _THREAD_BASE[1] = threading.active_count(), time.time()
     old = signal.signal(signal.SIGALRM, _alarm)
     _HUNG[0] = False
     # repeating timer: an exception raised inside a weakref/GC callback is swallowed by CPython,
